@@ -10,7 +10,7 @@ For every case a scratch copy of repo-src/src/crypto/src is changed, tools/rs2le
 writing into a scratch copy of the lean project, and `lake build` of the proof modules is run there.  Nothing outside a temporary
 directory (created inside this working copy, removed at the end) is written: not repo-src/, not the committed generated files.
 
-  HARMLESS  seeded/B3-b*, seeded/B4-b*            expected: the translator exits 0 AND the proof modules build
+  HARMLESS  seeded/B3-b1..b6, seeded/B4-b1..b6    expected: the translator exits 0 AND the proof modules build
   BREAKING  every seeded/C*-m*/patch.diff that touches src/crypto/src/{lib,noise,errors}.rs
             expected: the translator refuses (exit 3) OR the proof modules do not build
             `n/a` (skipped): none of the items (fn / const / struct / enum, found from the hunks of the diff) the patch touches is
@@ -21,6 +21,13 @@ directory (created inside this working copy, removed at the end) is written: not
             hoisted loop invariants, `&`-noise); expected as for HARMLESS
   K1 - K14  BREAKING edits on top of a harmless patch (they go through the constructs that make the harmless patches pass);
             expected as for BREAKING
+  X17 - X22 hand-made HARMLESS variants of the constructs of the second batch of seeded patches (struct pattern without `..`,
+            `match` on a `&mut self` call as the value of a function with a statement arm, `Option::map`, `let x = if let .. else
+            { ..?; .. }`, a deferred `let x;`, `?` on a `&mut self` call written as a `match`); K30 - K34 break them
+  K15 - K29 BREAKING edits that misuse exactly the constructs the second batch of harmless patches (B3-b4 .. B4-b6) needs: wrong
+            destructured field, swapped `match` arms, wrong `.map` closure, wrong split point / swapped halves, wrong block value,
+            a dropped call that is no longer redundant, `insert` into the wrong place; expected: translated AND a proof fails
+            (a refusal is reported as `refused **UNEXPECTED**`)
   (SELFTEST_ONLY=id,id,.. in the environment runs only those cases: a development aid.)
 
 A row `PASSES` for a breaking case whose generated definitions differ from the pristine ones is a REGRESSION (exit 1).  A breaking
@@ -41,7 +48,14 @@ MODULES = ['KestrelProofs.NoiseSrc', 'KestrelProps.NoiseSrc', 'KestrelProps.Nois
 PROOF_FILES = [os.path.join('KestrelProofs', 'NoiseSrc.lean'), os.path.join('KestrelProps', 'NoiseSrc.lean'),
                os.path.join('KestrelProps', 'NoiseStreamSrc.lean')]
 
-HARMLESS = ['B3-b1', 'B3-b2', 'B3-b3', 'B4-b1', 'B4-b2', 'B4-b3']
+HARMLESS = ['B3-b1', 'B3-b2', 'B3-b3', 'B4-b1', 'B4-b2', 'B4-b3',
+            # second batch (control-flow / data-flow rewrites nobody tuned against): struct pattern in `let`; `match` on a call that
+            # fills a buffer, `Ok(())` pattern, `&mut x` for `as_mut_slice()`; `Result::map`, single `if` / `else` in the TryFrom
+            # impls; `split_at` instead of a running index; `let x = if .. { stmts; v } else { .. }`, a redundant call dropped;
+            # `let x = match o { Some(ref p) => p, None => { ..?; o.insert(..) } }`
+            'B3-b4', 'B3-b5', 'B3-b6', 'B4-b4', 'B4-b5', 'B4-b6']
+# known refusals / known false alarms among the harmless rows (id -> why); such a row is reported as `known` and does not fail the run
+KNOWN_HARMLESS_FAILURES = {}
 
 # hand-made breaking edits: (id, what, [(file, line, text that line must contain, replacement for that text or None = delete the line)])
 HAND = [
@@ -214,6 +228,88 @@ MORE_HARMLESS += [
 ]
 MORE_HARMLESS += [('X15', '`?` written out as `match r { Ok(v) => v, Err(_) => return Err(..) }`', None, Q_MATCH)]
 
+# hand-made HARMLESS variants of the constructs of the second batch (so that the support is not a fit to six patches)
+DAH_OLD = """        let plaintext = self
+            .cipher_state
+            .decrypt_with_ad(&self.hash_output, ciphertext)?;
+        self.mix_hash(ciphertext);
+        Ok(plaintext)
+"""
+DAH_NEW = """        match self.cipher_state.decrypt_with_ad(&self.hash_output, ciphertext) {
+            Ok(plaintext) => {
+                self.mix_hash(ciphertext);
+                Ok(plaintext)
+            }
+            Err(e) => Err(e),
+        }
+"""
+DAH_BAD = """        match self.cipher_state.decrypt_with_ad(&self.hash_output, ciphertext) {
+            Ok(plaintext) => Ok(plaintext),
+            Err(e) => {
+                self.mix_hash(ciphertext);
+                Err(e)
+            }
+        }
+"""
+GET_PUBKEY_MAP = """        if self.initiator {
+            None
+        } else {
+            self.rs.as_ref().map(|pk| pk.clone())
+        }
+"""
+EPHEM_OLD = """                    if self.e.is_none() {
+                        let ephem_private_key = PrivateKey::generate();
+                        let ephem_public_key = ephem_private_key.to_public()?;
+                        let ephem_pair = KeyPair {
+                            private_key: ephem_private_key,
+                            public_key: ephem_public_key,
+                        };
+                        self.e = Some(ephem_pair);
+                    }
+                    let ephem_pair = self.e.as_ref().unwrap();
+"""
+EPHEM_NEW = """                    let ephem_pair: KeyPair = if let Some(pair) = &self.e {
+                        pair.clone()
+                    } else {
+                        let ephem_private_key = PrivateKey::generate();
+                        let ephem_public_key = ephem_private_key.to_public()?;
+                        let pair = KeyPair {
+                            private_key: ephem_private_key,
+                            public_key: ephem_public_key,
+                        };
+                        self.e = Some(pair.clone());
+                        pair
+                    };
+"""
+NEW_DEFER_OLD = """        let mut hash_output = [0u8; 32];
+        let protocol_name = protocol_name.as_bytes();
+        if protocol_name.len() <= HASH_LEN {
+            hash_output[..protocol_name.len()].copy_from_slice(protocol_name);
+        } else {
+"""
+NEW_DEFER_NEW = """        let protocol_name = protocol_name.as_bytes();
+        let hash_output: [u8; 32];
+        if protocol_name.len() <= HASH_LEN {
+            let mut padded = [0u8; 32];
+            padded[..protocol_name.len()].copy_from_slice(protocol_name);
+            hash_output = padded;
+        } else {
+"""
+READ_Q_OLD = '    let noise_handshake = handshake_state.read_message(handshake_message)?;\n'
+READ_Q_NEW = ('    let noise_handshake = match handshake_state.read_message(handshake_message) {\n        Ok(nh) => nh,\n'
+              '        Err(e) => return Err(e),\n    };\n')
+MORE_HARMLESS += [
+    ('X17', 'B3-b4 with a struct pattern that names every field (`cipher_state: _`, no `..`)', 'B3-b4',
+     [('lib.rs', '        handshake_hash,\n        ..\n    } = handshake_state.write_message', '        handshake_hash,\n        cipher_state: _,\n    } = handshake_state.write_message', 1)]),
+    ('X18', 'the value of decrypt_and_hash is a `match` on a `&mut self` call whose `Ok` arm has a statement', None, [('noise.rs', DAH_OLD, DAH_NEW, 1)]),
+    ('X19', '`Option::map` with a closure (get_pubkey)', None, [('noise.rs', GET_PUBKEY_OLD, GET_PUBKEY_MAP, 1)]),
+    ('X20', '`let p: KeyPair = if let Some(q) = &self.e { q.clone() } else { ..?; self.e = Some(..); p };` (write_message)', None,
+     [('noise.rs', EPHEM_OLD, EPHEM_NEW, 1)]),
+    ('X21', 'deferred `let hash_output: [u8; 32];` assigned in both branches (SymmetricState::new)', None, [('noise.rs', NEW_DEFER_OLD, NEW_DEFER_NEW, 1)]),
+    ('X22', '`?` on a `&mut self` call written out as `match .. { Ok(nh) => nh, Err(e) => return Err(e) }` (noise_decrypt)', None,
+     [('lib.rs', READ_Q_OLD, READ_Q_NEW, 1)]),
+]
+
 # BREAKING edits on top of a harmless patch (sensitivity through the constructs that make the harmless patches pass)
 MORE_BREAKING = [
     ('K1', 'B3-b1 + nonce offset 4 -> 0 in the helper', 'B3-b1', [('lib.rs', 'nonce_bytes[4..]', 'nonce_bytes[..8]', 1)]),
@@ -236,7 +332,54 @@ MORE_BREAKING = [
 ]
 
 
+# BREAKING edits that misuse exactly the constructs the second batch of harmless patches needs (B3-b4 .. B4-b6): each must be caught
+# by a failing proof, not by a refusal (checked below: PROOF_CAUGHT)
+MORE_BREAKING += [
+    ('K15', 'B3-b4 + struct pattern takes the wrong fields (noise_encrypt: hash as ciphertext)', 'B3-b4',
+     [('lib.rs', '        message: ciphertext,\n        handshake_hash,\n', '        handshake_hash: ciphertext,\n        message: handshake_hash,\n', 1)]),
+    ('K16', 'B3-b4 + struct pattern takes the wrong fields (noise_decrypt: hash as payload key)', 'B3-b4',
+     [('lib.rs', '        message,\n        handshake_hash,\n        ..\n    } = handshake_state.read_message',
+       '        message: handshake_hash,\n        handshake_hash: message,\n        ..\n    } = handshake_state.read_message', 1)]),
+    ('K17', 'B3-b5 + arms of `match open(..)` swapped', 'B3-b5',
+     [('lib.rs', '        Ok(()) => Ok(plaintext),\n        Err(_) => Err(ChaPolyDecryptError),', '        Ok(()) => Err(ChaPolyDecryptError),\n        Err(_) => Ok(plaintext),', 1)]),
+    ('K18', 'B3-b5 + a failed tag check hands out the buffer', 'B3-b5',
+     [('lib.rs', '        Err(_) => Err(ChaPolyDecryptError),', '        Err(_) => Ok(plaintext),', 1)]),
+    ('K19', 'B3-b6 + `.map` closure wraps the private key as the public key (to_public)', 'B3-b6',
+     [('lib.rs', '.map(|key| PublicKey { key })', '.map(|_| PublicKey { key: self.key.clone() })', 1)]),
+    ('K20', 'B3-b6 + `.map` closure returns the peer public key as the shared secret (x25519)', 'B3-b6',
+     [('lib.rs', '.map(|shared_secret| shared_secret.unprotected_as_bytes().to_vec())', '.map(|_| pk.to_vec())', 1)]),
+    ('K21', 'B3-b6 + single `if` in TryFrom for PublicKey accepts longer keys', 'B3-b6',
+     [('lib.rs', '        if raw_key.len() == 32 {\n            Ok(PublicKey {', '        if raw_key.len() >= 32 {\n            Ok(PublicKey {', 1)]),
+    ('K22', 'B4-b4 + wrong split point for the encrypted static key', 'B4-b4',
+     [('noise.rs', 'remaining.split_at(index_len)', 'remaining.split_at(DH_LEN)', 1)]),
+    ('K23', 'B4-b4 + halves of `split_at` swapped (token E)', 'B4-b4',
+     [('noise.rs', 'let (remote_ephem_bytes, rest) = remaining.split_at(DH_LEN);', 'let (rest, remote_ephem_bytes) = remaining.split_at(DH_LEN);', 1)]),
+    ('K24', 'B4-b4 + `remaining = rest` dropped after the ephemeral key', 'B4-b4',
+     [('noise.rs', '                    remaining = rest;\n                }\n                Token::S => {', '                }\n                Token::S => {', 1)]),
+    ('K25', 'B4-b5 + the block expression yields a fresh zero array instead of `padded`', 'B4-b5',
+     [('noise.rs', '            padded\n        } else {', '            [0u8; HASH_LEN]\n        } else {', 1)]),
+    ('K26', 'B4-b5 + CipherState::new starts at nonce 1 (the dropped `initialize_key(None)` is no longer redundant)', 'B4-b5',
+     [('noise.rs', '            key: None,\n            nonce: 0,', '            key: None,\n            nonce: 1,', 1)]),
+    ('K27', 'B4-b6 + the fresh ephemeral pair is inserted as the static pair', 'B4-b6',
+     [('noise.rs', 'self.e.insert(KeyPair {', 'self.s.insert(KeyPair {', 1)]),
+    ('K28', 'B4-b6 + the value of `insert` is dropped, the `None` arm yields the static pair', 'B4-b6',
+     [('noise.rs', '                            })\n                        }\n                    };',
+       '                            });\n                            self.s.as_ref().unwrap()\n                        }\n                    };', 1)]),
+    ('K29', 'B4-b6 + `Some(ref existing_pair)` arm yields the static pair', 'B4-b6',
+     [('noise.rs', 'Some(ref existing_pair) => existing_pair,', 'Some(ref existing_pair) => self.s.as_ref().unwrap(),', 1)]),
+]
+# rows that must be caught by a failing proof (a refusal there would mean the construct is not really supported)
+PROOF_CAUGHT = {f'K{i}' for i in range(15, 35)}
+
+
 MORE_BREAKING_PLAIN = [
+    ('K30', 'X18 + `mix_hash` moved to the `Err` arm', [('noise.rs', DAH_OLD, DAH_BAD, 1)]),
+    ('K31', 'X19 + the `Option::map` closure reports the own static key',
+     [('noise.rs', GET_PUBKEY_OLD, GET_PUBKEY_MAP.replace('|pk| pk.clone()', '|_| self.s.as_ref().unwrap().public_key.clone()'), 1)]),
+    ('K32', 'X20 + the fresh pair is not stored', [('noise.rs', EPHEM_OLD, EPHEM_NEW.replace('                        self.e = Some(pair.clone());\n', ''), 1)]),
+    ('K33', 'X21 + the long-name branch hashes a suffix of the name',
+     [('noise.rs', NEW_DEFER_OLD, NEW_DEFER_NEW, 1), ('noise.rs', 'hash_output = sha256(protocol_name).try_into().unwrap();', 'hash_output = sha256(&protocol_name[1..]).try_into().unwrap();', 1)]),
+    ('K34', 'X22 + the error of read_message is replaced by DhError', [('lib.rs', READ_Q_OLD, READ_Q_NEW.replace('return Err(e)', 'return Err(NoiseError::DhError)'), 1)]),
     ('K13', 'X15 + decrypt failure reported as DhError', Q_MATCH + [('noise.rs', 'return Err(NoiseError::Decrypt);', 'return Err(NoiseError::DhError);', 1)]),
     ('K14', 'X15 + failed public key derivation returns the private key', Q_MATCH + [('lib.rs', 'Err(_) => return Err(DhError),', 'Err(_) => return Ok(private_key.to_vec()),', 1)]),
 ]
@@ -530,7 +673,7 @@ def main():
         def breaking_row(cid, what, code, msg, ok, where, generated, touched_desc):
             nonlocal bad
             if code == 3:
-                verdict, good = 'refused', True
+                verdict, good = 'refused', cid not in PROOF_CAUGHT
             elif code != 0:
                 verdict, good = f'translator exit {code}', False
             elif not ok:
@@ -550,8 +693,10 @@ def main():
             touched = apply_patch(repo, os.path.join(ROOT, 'seeded', hid, 'patch.diff'))
             code, msg, ok, where, generated = bench.run(repo)
             good = code == 0 and ok
-            if not good: bad += 1
+            known = hid in KNOWN_HARMLESS_FAILURES and not good
+            if not good and not known: bad += 1
             verdict = 'robust' if good else ('FALSE ALARM (translator)' if code != 0 else 'FALSE ALARM (proof)')
+            if known: verdict = 'known ' + ('refusal' if code != 0 else 'false alarm') + ': ' + KNOWN_HARMLESS_FAILURES[hid]
             rows.append((hid, 'harmless', ','.join(sorted(os.path.basename(p) for p in touched)), str(code),
                          '-' if ok is None else ('builds' if ok else 'fails'), verdict, msg if code != 0 else where))
 
